@@ -20,6 +20,12 @@ torn write at k k must be an open-for-write event: execution continues to the ne
                 written, and the crash happens there.
 error at k      raise OSError(errno) once at event k, stay alive; the code's own
                 error path runs.
+crash after k   let operation k complete, then die at the very next Python line executed
+                (sys.settrace on every frame of the stack): the crash instant right
+                *after* a syscall, e.g. after a rename that published a file whose data
+                is still sitting in a Python buffer.  Tracked open-for-write paths
+                follow renames, so the cut-back to the on-disk size at the crash instant
+                hits the published name.
 
 A crash here is process death with all completed syscalls durable; loss of
 un-synced data on power failure is not modelled.
@@ -135,6 +141,8 @@ class Injector:
         self.open_paths = []  # paths opened for writing, in order
         self.sizes_at_crash = {}
         self.torn_target = None
+        self.pending_renames = []
+        self.after_armed = False
 
     def _in_scope(self, args):
         for a in args:
@@ -171,6 +179,8 @@ class Injector:
                     self.torn_target = _s(openpath) if openpath is not None else None
                 elif idx == plan[1] + 1:
                     self._die(idx, torn=True)
+            elif kind == "crash_after" and idx == plan[1]:
+                self._arm_after(idx)
             elif kind == "error" and idx == plan[1]:
                 self.errored_at = idx
                 raise OSError(plan[2], os.strerror(plan[2]) + " (injected)")
@@ -179,12 +189,45 @@ class Injector:
                 raise OSError(plan[2], os.strerror(plan[2]) + " (injected)")
         if openpath is not None:
             self.open_paths.append(_s(openpath))
+        if name == "os.rename" and len(args) >= 2:
+            # a tracked open-for-write file keeps being tracked under its new name
+            src, dst = _s(args[0]), _s(args[1])
+            if isinstance(src, str) and isinstance(dst, str) and src in self.open_paths:
+                self.pending_renames.append((src, dst))
 
-    def _die(self, idx, torn=False):
+    def _arm_after(self, idx):
+        """Die at the first Python line executed after the current audited operation returns."""
+        inj = self
+
+        def tracer(frame, event, arg):
+            if inj.after_armed and event in ("line", "return", "call") and not inj.bypass:
+                if frame.f_code.co_filename == __file__:
+                    return tracer
+                inj.after_armed = False
+                sys.settrace(None)
+                inj._apply_renames()
+                inj._die(idx + 1, after=True)
+            return tracer
+
+        self.after_armed = True
+        f = sys._getframe(1)
+        while f is not None:
+            f.f_trace = tracer
+            f = f.f_back
+        sys.settrace(tracer)
+
+    def _apply_renames(self):
+        for src, dst in self.pending_renames:
+            if not os.path.lexists(src) and os.path.lexists(dst):
+                self.open_paths = [dst if p == src else p for p in self.open_paths]
+        self.pending_renames = []
+
+    def _die(self, idx, torn=False, after=False):
         self.dead = True
         self.crashed_at = idx
         self.bypass = True
         try:
+            self._apply_renames()
             for p in self.open_paths:
                 try:
                     self.sizes_at_crash[p] = os.lstat(p).st_size
@@ -229,6 +272,9 @@ class Injector:
                 pass
         finally:
             _active = None
+            if self.after_armed:
+                self.after_armed = False
+            sys.settrace(None)
             sys.unraisablehook = old_unraisable
         if self.crashed_at is not None:
             status = "crashed"
@@ -262,13 +308,16 @@ def is_open_event(ev):
     return ev[0] == "open"
 
 
-def plans_for(events, crash=True, torn=True, errors=False, errnos=(_errno.EIO,)):
+def plans_for(events, crash=True, torn=True, errors=False, errnos=(_errno.EIO,), after=False):
     """All single-fault plans for a recorded fault-free event list."""
     out = []
     n = len(events)
     for k in range(n):
         if crash:
             out.append(("crash", k))
+        if after and events[k][0] in ("os.rename", "os.link", "os.symlink"):
+            # the instant right after a publishing operation (nothing else audited may follow it)
+            out.append(("crash_after", k))
         if torn and is_open_event(events[k]) and k + 1 < n:
             out.append(("torn", k))
         if errors:
